@@ -110,6 +110,8 @@ class PipeCore(object):
             if f == 'usb':
                 from adb_shell import exceptions as _e
                 raise (_e.UsbReadFailedError('injected', None) if kind == 'bulk_read' else _e.UsbWriteFailedError('injected usb failure at call %d (%s)' % (k, kind)))
+            if f == 'timeout_after' and kind == 'bulk_write':
+                return 'raise_after'                # the bytes do reach the peer; the call still reports a timeout (the acknowledgement of the transfer got lost)
             if f == 'cancel':
                 if kind == 'bulk_write':
                     return 'cancel_after'           # the bytes are handed over, the cancellation arrives while waiting for the drain
@@ -214,6 +216,8 @@ class PipeCore(object):
         if r == 'cancel_after':
             import asyncio
             raise asyncio.CancelledError()
+        if r == 'raise_after':
+            raise self.exc_timeout('the write timed out (injected after the bytes were handed over)')
         if self.write_none and acc == len(data):
             return None
         return acc
